@@ -829,6 +829,20 @@ impl Machine {
         // For escaped closures whose HeapIdx was CloneHeap'd before return,
         // the refcount will still be > 0 after this release.
         heap::heap_release(&mut self.heap, heap_idx);
+
+        // A closed closure is only reachable through its heap wrapper: once the last
+        // reference to the wrapper is gone the closure itself has to be dropped as
+        // well, otherwise every closed closure created per sample stays in
+        // `closures` forever.
+        if let Some(closure_idx) = maybe_closure
+            && !self.heap.contains_key(heap_idx)
+            && self
+                .closures
+                .get(closure_idx.0)
+                .is_some_and(|cls| cls.is_closed)
+        {
+            self.drop_closure(closure_idx);
+        }
     }
 
     /// Close upvalues of a heap-based closure (does not release the heap object)
